@@ -251,3 +251,61 @@ def bool_switch_true_target(body, bb):
     if 1 in tg:
         return t["otherwise"], tg[1]
     return None
+
+
+def path_records(body, limit=20000):
+    """Per entry->return path: decisions on enum discriminants / bool tests, calls, aggregates, outcome.
+
+    decision = (subject_text, subject_params, value) where value is a variant name, or True/False for bool
+    switches, or an int.  Infeasible combinations produced by drop-flag switches are harmless duplicates."""
+    recs = []
+    for path in body.paths(limit=limit):
+        if body.term(path[-1])["k"] == "unreachable":
+            continue  # compiler-proved infeasible arm
+        decisions = []
+        for i, b in enumerate(path[:-1]):
+            t = body.term(b)
+            if t["k"] != "switch":
+                continue
+            nxt = path[i + 1]
+            info = body.switch_info(b)
+            subject, targets, otherwise, names = info
+            val = None
+            for v, tg in targets.items():
+                if tg == nxt:
+                    val = v
+            if names:
+                if val is None:
+                    # otherwise arm: the variants without an explicit target
+                    rest = [n for v, n in names.items() if v not in targets]
+                    vname = rest[0] if len(rest) == 1 else tuple(rest)
+                else:
+                    vname = names.get(val, val)
+                subj = subject[1] if subject[0] == "discr" else subject
+                decisions.append((show(subj), frozenset(expr_params(subj)), vname, subj))
+            else:
+                if t.get("dty") == "bool":
+                    ft = bool_switch_true_target(body, b)
+                    bval = (nxt == ft[1]) if ft else None
+                    decisions.append((show(subject), frozenset(expr_params(subject)), bval, subject))
+                else:
+                    decisions.append((show(subject), frozenset(expr_params(subject)), val, subject))
+        calls = [body.call_at(b) for b in path]
+        calls = [c for c in calls if c is not None]
+        aggs = []
+        outcome = None
+        for b in path:
+            for st in body.blocks[b]["stmts"]:
+                if st["k"] == "assign" and st["rv"]["k"] == "aggregate" and st["rv"].get("agg") == "adt":
+                    aggs.append((norm(st["rv"]["adt"]), st["rv"].get("variant")))
+                    if st["place"]["local"] == 0 and not st["place"]["proj"] and st["rv"].get("variant") in ("Ok", "Err"):
+                        outcome = st["rv"]["variant"]
+        if outcome == "Err":
+            errs = [a[1] for a in aggs if a[0].endswith("InterpreterError") or a[0].endswith("SyntaxError")]
+            outcome = "Err:" + (errs[-1] if errs else "?")
+        if outcome is None:
+            # `?` propagation of a callee's error
+            if any(c.callee.endswith("from_residual") for c in calls):
+                outcome = "Err:propagated"
+        recs.append({"path": path, "decisions": decisions, "calls": calls, "aggs": aggs, "outcome": outcome})
+    return recs
